@@ -138,8 +138,20 @@ def _is_avail (L, e):
   if L.cur is None: return t in lens
   return any(t == '%s - %s' % (x, L.cur) for x in lens)
 
+def _aliases (L):
+  al = {}
+  if L.lenv: al[L.lenv] = 'len(%s)' % L.buf
+  return al
+
 def avail_ge_wlen (L, node):
   """do dominating guards prove len(BUF) - CUR >= WLEN at node?"""
+  # linear form: any fact equivalent to  len(BUF) - CUR - WLEN >= 0  (e.g. `CUR + WLEN <= len(BUF)`)
+  al = _aliases(L)
+  tgt = {('len(%s)' % L.buf): 1, L.wlen: -1}
+  if L.cur: tgt[L.cur] = -1
+  for l, o, r, b in q.guard_facts(L.g, node):
+    if r is None: continue
+    if q.implies_ge0(q.fact_as_ge0(l, o, r, al), (tgt, 0)): return True
   for l, o, r, b in q.guard_facts(L.g, node):
     if r is None: continue
     for (a, op, c) in ((l, o, r), (r, q.flip(o), l)):
